@@ -94,6 +94,15 @@ class CFG(object):
                 return True
         return False
 
+    @staticmethod
+    def _guard_matters(a):
+        """the arm subscripts an array or dereferences a pointer: the condition is what makes that safe, so the arm
+        must sit on its own branch for the range / non-null analyses"""
+        for m in walk(a):
+            if m.k == 'idx' or (m.k == 'mem' and m.arrow) or (m.k == 'un' and m.op == '*'):
+                return True
+        return False
+
     def _effect_cond(self, x):
         """outermost `c ? a : b` of x with a side effect in an arm (and none in c itself other than calls), else None"""
         st = [x]
@@ -101,7 +110,8 @@ class CFG(object):
             n = st.pop()
             if n is None:
                 continue
-            if n.k == 'cond' and (self._has_effect(n.kids[1]) or self._has_effect(n.kids[2])):
+            if n.k == 'cond' and (self._has_effect(n.kids[1]) or self._has_effect(n.kids[2])
+                                  or self._guard_matters(n.kids[1]) or self._guard_matters(n.kids[2])):
                 return n
             if n.k == 'bin' and n.op in ('&&', '||'):
                 continue          # conditionally evaluated operand: left to _check_expr
